@@ -250,7 +250,25 @@ VP_HARNESS(h_xml_roundtrip)
     VP_ASSUME(h != NULL); int r = hwloc_distances_add_values(A, h, 3, objs, vals, 0); VP_ASSUME(r == 0); r = hwloc_distances_add_commit(A, h, 0); VP_ASSUME(r == 0); }
 #endif
 #endif
-#if WITH_MEMATTR
+#if WITH_MEMATTR == 3
+  /* the attribute table of A written directly in its representation (what set_value produces; set_value itself: C14): values of
+   * Bandwidth for both nodes from cpuset initiators, Latency from an object initiator, a registered attribute without initiator */
+  { struct hwloc_internal_memattr_s *bw = &A->memattrs[HWLOC_MEMATTR_ID_BANDWIDTH], *lat = &A->memattrs[HWLOC_MEMATTR_ID_LATENCY];
+    struct hwloc_internal_memattr_target_s *tg = malloc(2 * sizeof(struct hwloc_internal_memattr_target_s)); VP_NONNULL(tg); static const struct hwloc_internal_memattr_target_s tz; tg[0] = tz; tg[1] = tz;
+    for (unsigned k = 0; k < 2; k++) { struct hwloc_internal_memattr_initiator_s *in = malloc(sizeof(struct hwloc_internal_memattr_initiator_s)); VP_NONNULL(in); static const struct hwloc_internal_memattr_initiator_s iz; *in = iz;
+      in->initiator.type = HWLOC_LOCATION_TYPE_CPUSET; in->initiator.location.cpuset = vp_bm(k ? 0x24 : 0x03); in->value = k ? 50 : 100;
+      tg[k].obj = SA.numa[k]; tg[k].type = HWLOC_OBJ_NUMANODE; tg[k].os_index = SA.numa[k]->os_index; tg[k].gp_index = SA.numa[k]->gp_index; tg[k].nr_initiators = 1; tg[k].initiators = in; }
+    bw->targets = tg; bw->nr_targets = 2;
+    struct hwloc_internal_memattr_target_s *tl = malloc(sizeof(struct hwloc_internal_memattr_target_s)); VP_NONNULL(tl); *tl = tz;
+    struct hwloc_internal_memattr_initiator_s *il = malloc(sizeof(struct hwloc_internal_memattr_initiator_s)); VP_NONNULL(il); static const struct hwloc_internal_memattr_initiator_s iz2; *il = iz2;
+    il->initiator.type = HWLOC_LOCATION_TYPE_OBJECT; il->initiator.location.object.obj = SA.pkg[1]; il->initiator.location.object.gp_index = SA.pkg[1]->gp_index; il->initiator.location.object.type = HWLOC_OBJ_PACKAGE; il->value = 7;
+    tl->obj = SA.numa[1]; tl->type = HWLOC_OBJ_NUMANODE; tl->os_index = 1; tl->gp_index = SA.numa[1]->gp_index; tl->nr_initiators = 1; tl->initiators = il;
+    lat->targets = tl; lat->nr_targets = 1;
+    hwloc_memattr_id_t id; int r = hwloc_memattr_register(A, "Custom", HWLOC_MEMATTR_FLAG_HIGHER_FIRST, &id); VP_ASSUME(r == 0);
+    struct hwloc_internal_memattr_target_s *tc = malloc(sizeof(struct hwloc_internal_memattr_target_s)); VP_NONNULL(tc); *tc = tz;
+    tc->obj = SA.numa[0]; tc->type = HWLOC_OBJ_NUMANODE; tc->os_index = 0; tc->gp_index = SA.numa[0]->gp_index; tc->noinitiator_value = 18446744073709551615ULL;
+    A->memattrs[id].targets = tc; A->memattrs[id].nr_targets = 1; }
+#elif WITH_MEMATTR
   { struct hwloc_location loc; int r;
 #if WITH_MEMATTR >= 2
     loc.type = HWLOC_LOCATION_TYPE_CPUSET; loc.location.cpuset = SA.pkg[0]->cpuset;
